@@ -108,7 +108,7 @@ def equations(year):
             E("1040", "28", "carry", src="1040_s8812.27", cite="28. Additional child tax credit from Schedule 8812"),
         ]
     def same_in(form, line, inp, cite, **kw):
-        return E(form, line, "same", ["in:" + inp], cite=cite, tol=1, **kw)     # an answer typed with more than two decimals: either neighbouring cent
+        return E(form, line, "same", ["in:" + inp], cite=cite, tol_min=1, **kw)     # an answer typed with more than two decimals: either neighbouring cent
     c86 = "Form 8606 (%d) " % year
     out += [
         # Form 8606 (Nondeductible IRAs): the lines the template's text does not turn into arithmetic
@@ -200,5 +200,50 @@ def equations(year):
         E("nc_d-400_sa", "deduction", "max", ["nc_standard_deduction", "10"], cite="D-400 line 11: the N.C. standard deduction or the N.C. itemized deductions, whichever is larger"),
         E("nc_d-400_sa", "7b", "carry", src="nc_d-400.6", cite="Schedule A 7b. Enter amount from Form D-400, Line 6"),
         E("nc_d-400_ss", NC_SS_TOTAL_ADDITIONS[year], "add", [str(k) for k in range(1, int(NC_SS_TOTAL_ADDITIONS[year]))], cite="Schedule S: Total Additions - Add Lines 1 through %d" % (int(NC_SS_TOTAL_ADDITIONS[year]) - 1)),
+    ]
+    ncw = "nc_d-400_consumer_use_tax_wkst"
+    out += [
+        # D-400: choice of deduction, lines the program leaves empty, amounts the filer is told to enter, tax due / overpayment
+        E("nc_d-400", "11", "carry", src="nc_d-400_sa.deduction", cond="nc_d-400.11_itemizing", condis=1, cite=nc + " 11. N.C. standard deduction OR N.C. itemized deductions (Schedule A)"),
+        E("nc_d-400", "11", "carry", src="nc_d-400_sa.nc_standard_deduction", cond="nc_d-400.11_itemizing", condis=0, cite=nc + " 11. N.C. standard deduction (box not filled for itemized deductions)"),
+        E("nc_d-400", "13", "zero", cite=nc + " 13. Part-year residents and nonresidents only (not supported: nothing to enter)"),
+        E("nc_d-400", "16", "zero", cite=nc + " 16. Tax credits from Form D-400TC (not supported: nothing to enter)"),
+        E("nc_d-400", "22", "zero", cite=nc + " 22. Amended returns only (not supported: nothing to enter)"),
+        E("nc_d-400", "24", "zero", cite=nc + " 24. Amended returns only (not supported: nothing to enter)"),
+        E("nc_d-400", "26b", "zero", cite=nc + " 26b. Penalties (not supported: nothing to enter)"),
+        E("nc_d-400", "26c", "zero", cite=nc + " 26c. Interest (not supported: nothing to enter)"),
+        E("nc_d-400", "18", "zero", cond="nc_d-400.no_consumer_use_tax", condis=1, cite=nc + " 18. Consumer use tax: the circle 'no use tax is due' is filled in"),
+        E("nc_d-400", "18", "carry", src=ncw + ".consumer_use_tax", cond="nc_d-400.no_consumer_use_tax", condis=0, cite=nc + " 18. Consumer use tax (worksheet)"),
+        same_in("nc_d-400", "21a", "estimated_tax", nc + " 21a. Other tax payments: estimated tax"),
+        same_in("nc_d-400", "21b", "paid_with_extension", nc + " 21b. Paid with extension"),
+        same_in("nc_d-400", "21c", "partnership_payments", nc + " 21c. Partnership"),
+        same_in("nc_d-400", "21d", "s_corp_payments", nc + " 21d. S corporation"),
+        E("nc_d-400", "26a", "sub", ["25", "19"], exact_sub=True, cite=nc + " 26a. Tax due: if Line 25 is less than Line 19, subtract Line 25 from Line 19"),
+        E("nc_d-400", "28", "sub", ["19", "25"], exact_sub=True, cite=nc + " 28. Overpayment: if Line 25 is more than Line 19, subtract Line 19 from Line 25"),
+        same_in("nc_d-400", "29", "%d_estimated_income_tax" % {2021: 2022, 2022: 2022, 2023: 2024}[year], nc + " 29. Amount of Line 28 to be applied to next year's estimated income tax"),
+        same_in("nc_d-400", "30", "nc_nongame_endangered_wildlife", nc + " 30. Contribution to the N.C. Nongame and Endangered Wildlife Fund"),
+        same_in("nc_d-400", "31", "nc_education_endowment", nc + " 31. Contribution to the N.C. Education Endowment Fund"),
+        same_in("nc_d-400", "32", "nc_breast_cervical_cancer", nc + " 32. Contribution to the N.C. Breast and Cervical Cancer Control Program"),
+    ]
+    # consumer use tax worksheet (D-400 instructions, "Consumer Use Tax Worksheet"; the 2022 form has two half-years with their own rates)
+    if year == 2022:
+        out += [
+            same_in(ncw, "1", "out_of_state_purchases_pre_oct", "Use tax worksheet (2022) 1. Purchases before October 1 on which no N.C. tax was paid"),
+            same_in(ncw, "3", "out_of_state_purchases_post_oct", "Use tax worksheet (2022) 3. Purchases from October 1 on which no N.C. tax was paid"),
+            E(ncw, "consumer_use_tax", "same", ["6"], cond="in:full_records", condis=1, cite="D-400 line 18 instructions: with complete records, the use tax computed on the worksheet"),
+        ]
+    else:
+        out += [
+            same_in(ncw, "1", "out_of_state_purchases", "Use tax worksheet 1. Purchases on which no N.C. tax was paid"),
+            E(ncw, "3", "min", ["in:other_state_sales_tax", "2"], tol=50, cite="Use tax worksheet 3. Tax paid to another state, not more than the N.C. tax on line 2"),
+            E(ncw, "4", "sub", ["3", "2"], exact_sub=True, cite="Use tax worksheet 4. Subtract line 3 from line 2"),
+            E(ncw, "consumer_use_tax", "same", ["4"], cond="in:full_records", condis=1, cite="D-400 line 18 instructions: with complete records, the use tax computed on the worksheet"),
+        ]
+    out += [
+        E(ncw, "consumer_use_tax", "same", ["estimate"], cond="in:full_records", condis=0, cite="D-400 line 18 instructions: without complete records, the estimate from the Use Tax Table"),
+        # child deduction worksheet line 4: the table of the D-400 instructions (2021: $2,500 at most; from 2022: $3,000 at most)
+        E("nc_d-400_child_deduction_wkst", "4", "ncchild", ["2"], consts=[20000, 40000, 20000, 30000, 40000], den=(2500 if year == 2021 else 3000),
+          cite="D-400 instructions, Child Deduction table: married filing jointly / surviving spouse up to $40,000, head of household up to $30,000, single / married filing separately "
+               "up to $20,000: $%d per child; $500 less for each further band (half of that first limit wide); nothing above the last band" % (2500 if year == 2021 else 3000)),
     ]
     return out
